@@ -162,25 +162,38 @@ func (p *Program) verifyFunc(key string, safetyOnly bool) *FuncResult {
 	type cl struct {
 		c    Clause
 		from string
+		idx  int
 	}
 	var reqs, enss []cl
 	if icon != nil {
-		for _, c := range icon.Requires {
-			reqs = append(reqs, cl{c, ikey})
+		for i, c := range icon.Requires {
+			reqs = append(reqs, cl{c, ikey, i})
 		}
 		if !safetyOnly {
-			for _, c := range icon.Ensures {
-				enss = append(enss, cl{c, ikey})
+			for i, c := range icon.Ensures {
+				if !clauseFor(c, currentProperty) {
+					continue
+				}
+				if con != nil {
+					if reason, skip := con.AssumeIface[i]; skip {
+						e.trusted[fmt.Sprintf("%s clause %d for %s: not proved here (%s); bounded check only", ikey, i, key, reason)] = true
+						continue
+					}
+				}
+				enss = append(enss, cl{c, ikey, i})
 			}
 		}
 	}
 	if con != nil {
-		for _, c := range con.Requires {
-			reqs = append(reqs, cl{c, key})
+		for i, c := range con.Requires {
+			reqs = append(reqs, cl{c, key, i})
 		}
 		if !safetyOnly {
-			for _, c := range con.Ensures {
-				enss = append(enss, cl{c, key})
+			for i, c := range con.Ensures {
+				if !clauseFor(c, currentProperty) {
+					continue
+				}
+				enss = append(enss, cl{c, key, i})
 			}
 		}
 	}
@@ -229,7 +242,8 @@ func (p *Program) verifyFunc(key string, safetyOnly bool) *FuncResult {
 				renv.vars[nm] = v
 			}
 		}
-		for i, en := range enss {
+		for _, en := range enss {
+			i := en.idx
 			cenv := renv
 			if en.from != key {
 				cenv = rienv
